@@ -166,6 +166,9 @@ theorem prune_guard_needs_marker :
 blocks) is lawful, a fresh node exists and is `Good`. -/
 example : FreeAlg.Lawful := fun _ _ => rfl
 
+/-- The algebra the correspondence driver runs (sets of outpoints + journal) is lawful too. -/
+example : SetAlg.Lawful := fun _ _ => rfl
+
 example : ∃ nd0 : Node FreeAlg, recover ⟨true, none⟩ (Image.empty FreeAlg) = .ok nd0 ∧
     Good (Image.empty FreeAlg) nd0 := by
   obtain ⟨nd0, r, g, _⟩ := recover_empty_spec (A := FreeAlg) ⟨true, none⟩
